@@ -137,10 +137,18 @@ import "bytes"
 //@   ensures len: err == nil ==> length == bodyLen(c, header, body)
 
 //@ func (*codec).encodeBodyUncompressed
-//@   prop C03
+//@   prop C03, C02
 //@   assigns wstream(dest)
 //@   requires parts: body.Message != nil
 //@   ensures len: err == nil ==> written(dest) == old(written(dest)) + bodyLen(c, header, body)
+// C02: the body prefix is [<tracing_id>][<warnings>][<custom_payload>] in that order (section 4 of the v5
+// specification; flag descriptions 0x02/0x04/0x08 of the v4, v5 and DSE specifications): with both the warning and
+// the custom-payload flag set, the [string list] of warnings starts right after the tracing id (or at the start of
+// the body) and the [bytes map] follows it.
+//@   let w0 = written(dest)
+//@   let t0 = ite(header.Flags.Contains(primitive.HeaderFlagTracing) && body.Message.IsResponse(), int(16), int(0))
+//@   ensures warningsfirst: err == nil && header.Flags.Contains(primitive.HeaderFlagWarning) && header.Flags.Contains(primitive.HeaderFlagCustomPayload) && len(body.Warnings) <= 65535 ==> primitive.wbe2(dest, w0 + t0) == uint16(len(body.Warnings))
+//@   ensures payloadafter: err == nil && header.Flags.Contains(primitive.HeaderFlagWarning) && header.Flags.Contains(primitive.HeaderFlagCustomPayload) && len(body.CustomPayload) <= 65535 ==> primitive.wbe2(dest, w0 + t0 + primitive.LengthOfStringList(body.Warnings)) == uint16(len(body.CustomPayload))
 
 //@ func (*codec).EncodeHeader
 //@   prop C03, C02, C01
